@@ -158,6 +158,31 @@ static void judge(const std::string& combo, Op op, int n, const Get& L, const Ge
         if (M > 0) {
             vh::obs_max("err_over_eps_M", double(err / (ref::EPS * M)));
         }
+        //the field formulas evaluated in floating point are accurate per COMPONENT: re and im of a product carry the rounding of
+        //their own two products only (a normwise-accurate shortcut such as the 3-multiplication product loses a small component
+        //next to a large one); the same holds for the quotient's numerators over |y|^2
+        if (op == MUL || op == DIV) {
+            const ld den = (op == DIV) ? (y.re * y.re + y.im * y.im) : 1.0L;
+            const ld yr = y.re, yi = (op == DIV) ? -y.im : y.im;   //x / y = x * conj(y) / |y|^2
+            const ld mre = (fabsl(x.re * yr) + fabsl(x.im * yi)) / den;
+            const ld mim = (fabsl(x.re * yi) + fabsl(x.im * yr)) / den;
+            const ld k = (op == DIV) ? 8 : 4;
+            const ld ere = fabsl(got.re - want.re);
+            const ld eim = fabsl(got.im - want.im);
+            if (mre > 1e-280L) {
+                vh::obs_max("component_err_over_eps_m", double(ere / (ref::EPS * mre)));
+            }
+            if (mim > 1e-280L) {
+                vh::obs_max("component_err_over_eps_m", double(eim / (ref::EPS * mim)));
+            }
+            if (!(ere <= k * ref::EPS * mre + 1e-300L) || !(eim <= k * ref::EPS * mim + 1e-300L)) {
+                vh::violation(vh::fmt("C03/component/%s/%s", combo.c_str(), OPN[op]),
+                              vh::fmt("%s: element %d: (%.17Lg%+.17Lgi) %s (%.17Lg%+.17Lgi) gave (%.17Lg%+.17Lgi), expected (%.17Lg%+.17Lgi): component errors (%.3Le, %.3Le) exceed %.0Lf*eps*(sum of the "
+                                      "magnitudes of that component's two products) = (%.3Le, %.3Le)",
+                                      combo.c_str(), i, x.re, x.im, OPN[op], y.re, y.im, got.re, got.im, want.re, want.im, ere, eim, k, k * ref::EPS * mre, k * ref::EPS * mim));
+                return;
+            }
+        }
         if (!(err <= 4 * ref::EPS * M)) {
             vh::violation(vh::fmt("C03/value/%s/%s", combo.c_str(), OPN[op]),
                           vh::fmt("%s: element %d: (%.17Lg%+.17Lgi) %s (%.17Lg%+.17Lgi) gave (%.17Lg%+.17Lgi), expected (%.17Lg%+.17Lgi); |err|=%.3Le > 4*eps*M=%.3Le",
